@@ -306,6 +306,8 @@ def main(tier, seed):
             print(f"MODEL-MISMATCH: property=C06 history {name}: the recorded recompilation sets are not a behaviour of BuildCache.tla "
                   f"({tr.violated or tr.error})", flush=True)
             chk.extra.setdefault("rejected_traces", []).append(name)
+            (REPLAYS / "C06").mkdir(parents=True, exist_ok=True)
+            (REPLAYS / "C06" / f"rejected-{tier}-{seed}-{name}.ndjson").write_text(nd)
     chk.extra["histories"] = {k: [a[1] for a in v] for k, v in histories.items()}
     chk.extra["cold_references"] = len(refs_memo)
     return chk.finish()
